@@ -5,11 +5,20 @@ import (
 	"time"
 )
 
+// vLogHook, when set, is called from Debugf with the format string: it lets a
+// harness run an operation "while" another one is in progress at the points
+// where the code logs (e.g. an append that rolls a segment during Clean).
+var vLogHook func(format string)
+
 // no-op logger.Logger
 type vLog struct{}
 
 func (vLog) Fatalf(string, ...interface{}) {}
-func (vLog) Debugf(string, ...interface{}) {}
+func (vLog) Debugf(f string, a ...interface{}) {
+	if h := vLogHook; h != nil {
+		h(f)
+	}
+}
 func (vLog) Errorf(string, ...interface{}) {}
 func (vLog) Infof(string, ...interface{})  {}
 func (vLog) Warnf(string, ...interface{})  {}
